@@ -79,13 +79,20 @@ impl Graph {
             .find(|j| names_of(j).iter().any(|n| n == name))
             .cloned()
     }
+    pub fn ups_map(&self) -> BTreeMap<String, Vec<String>> {
+        let mut m: BTreeMap<String, Vec<String>> = self.kind.keys().map(|j| (j.clone(), vec![])).collect();
+        for (u, d) in self.edges.iter() {
+            m.entry(d.clone()).or_default().push(u.clone());
+        }
+        m
+    }
     /// fill needs with "everything of every upstream" and restrict uses accordingly
     pub fn normalise_ids(&mut self) {
-        let jobs: Vec<String> = self.kind.keys().cloned().collect();
-        for j in jobs {
+        let um = self.ups_map();
+        for (j, ups) in um.iter() {
             let mut all = BTreeSet::new();
-            for u in self.ups(&j) {
-                for n in names_of(&u) {
+            for u in ups {
+                for n in names_of(u) {
                     all.insert(n);
                 }
             }
@@ -96,21 +103,30 @@ impl Graph {
         self.needs.retain(|j, _| self.kind.contains_key(j));
         self.uses.retain(|j, _| self.kind.contains_key(j));
     }
+    /// topological order (Kahn, ties in id order)
     pub fn topo(&self) -> Vec<String> {
-        let mut done: Vec<String> = Vec::new();
-        let mut rem: BTreeSet<String> = self.kind.keys().cloned().collect();
-        while !rem.is_empty() {
-            let next: Vec<String> = rem
-                .iter()
-                .filter(|j| self.ups(j).iter().all(|u| done.contains(u)))
-                .cloned()
-                .collect();
-            assert!(!next.is_empty(), "cycle");
-            for j in next {
-                rem.remove(&j);
-                done.push(j);
-            }
+        let um = self.ups_map();
+        let mut indeg: BTreeMap<String, usize> = um.iter().map(|(j, u)| (j.clone(), u.len())).collect();
+        let mut downs: BTreeMap<String, Vec<String>> = BTreeMap::new();
+        for (u, d) in self.edges.iter() {
+            downs.entry(u.clone()).or_default().push(d.clone());
         }
+        let mut ready: BTreeSet<String> = indeg.iter().filter(|(_, n)| **n == 0).map(|(j, _)| j.clone()).collect();
+        let mut done = Vec::new();
+        while let Some(j) = ready.iter().next().cloned() {
+            ready.remove(&j);
+            if let Some(ds) = downs.get(&j) {
+                for d in ds {
+                    let e = indeg.get_mut(d).unwrap();
+                    *e -= 1;
+                    if *e == 0 {
+                        ready.insert(d.clone());
+                    }
+                }
+            }
+            done.push(j);
+        }
+        assert_eq!(done.len(), self.kind.len(), "cycle");
         done
     }
 }
@@ -385,6 +401,25 @@ pub fn single_edits(u: &Universe, w: &World, classes: &str) -> Vec<Edit> {
                 out.push(Edit::RmEdge(a.clone(), b.clone()));
             } else if w.g.kind.contains_key(a) && w.g.kind.contains_key(b) {
                 out.push(Edit::AddEdge(a.clone(), b.clone()));
+            }
+        }
+    }
+    if classes.contains('r') {
+        // a multi-output job gains or loses an output, thereby changing its id
+        for j in w.g.kind.keys() {
+            let parts = names_of(j);
+            if !parts.iter().any(|p| p == "zz") {
+                let mut p2 = parts.clone();
+                p2.push("zz".to_string());
+                out.push(Edit::Rename(j.clone(), p2.join(":::")));
+            }
+            if parts.len() > 1 {
+                let dropped = parts.last().unwrap().clone();
+                let needed = w.g.needs.values().any(|s| s.contains(&dropped)) && w.conv == Conv::Names;
+                if !needed {
+                    let p2: Vec<String> = parts[..parts.len() - 1].to_vec();
+                    out.push(Edit::Rename(j.clone(), p2.join(":::")));
+                }
             }
         }
     }
